@@ -136,7 +136,14 @@ def harness(cfg, B):
     solver.step = step
     directives = {'dtlocal': True} if dtlocal else {}
     call = getattr(solver, cfg['call'])
-    res = call(f0, B.const(1), list(ts), stop=stop if stop else None, directives=directives)
+    tsl = list(ts)
+    stop_items = sorted((k, id(v)) for k, v in stop.items()) if stop else None
+    res = call(f0, B.const(1), tsl, stop=stop if stop else None, directives=directives)
+    # the objects the caller passed (which it may pass again to the next call) come back as they were
+    B.ob('caller-stop-dictionary-untouched', 'true', B.boolean((sorted((k, id(v)) for k, v in stop.items()) if stop else None) == stop_items),
+         meta={'keys': sorted(stop) if stop else None})
+    B.ob('caller-save-time-list-untouched', 'true', B.boolean(len(tsl) == len(ts) and all(a is b for a, b in zip(tsl, ts))))
+    B.ob('caller-directives-untouched', 'true', B.boolean(directives == ({'dtlocal': True} if dtlocal else {})))
     sols = list(res.solutions)
     Qn = solver.Qn
     R = [r for r in sols if r is not Qn]
